@@ -26,6 +26,7 @@ MUTANTS = {
     ],
     "C04": [
         {'id': 'new-own-error', 'file': 'cfdp-daemon/src/transaction/recv.rs', 'old': '    fn send_naks(&mut self, permit: Permit<(VariableID, PDU)>) -> TransactionResult<()> {\n', 'new': '    fn send_naks(&mut self, permit: Permit<(VariableID, PDU)>) -> TransactionResult<()> {\n        if self.naks.is_empty() {\n            return Err(TransactionError::MissingNak);\n        }\n', 'rule': 'C04-E'},
+        {"id": "no-staging-file-after-delivery", "file": R, "old": "        if self.file_handle.is_none() {\n            self.initialize_tempfile()?\n", "new": "        if self.file_handle.is_none() && self.recv_state == RecvState::ReceiveData {\n            self.initialize_tempfile()?\n", "rule": "C04-H2"},
         {"id": "finalize-in-any-phase", "file": R, "old": "        if self.recv_state == RecvState::ReceiveData\n            && self.metadata.is_some()\n            && self.eof_received()", "new": "        if self.metadata.is_some()\n            && self.eof_received()", "rule": "C04-F"},
         {"id": "stay-in-phase", "file": R, "old": "            self.finalize_receive()?;\n            self.recv_state = RecvState::Finished;\n            self.prepare_finished(None);", "new": "            self.finalize_receive()?;\n            self.prepare_finished(None);", "rule": "C04-P"},
         {"id": "sender-invents-complete", "file": S, "old": "                            self.delivery_code = finished.delivery_code;\n                            self.file_status = finished.file_status;", "new": "                            self.delivery_code = DeliveryCode::Complete;\n                            self.file_status = finished.file_status;", "rule": "C04-S"},
